@@ -63,7 +63,7 @@ InitWorld == [InitWorld0 EXCEPT !.tok = [t \in DOMAIN InitWorld0.tok |->
 
 VARIABLES w, last, steps
 vars == <<w, last, steps>>
-View == w
+View == <<w, steps>>
 NoEv == [op |-> [op |-> "none", caller |-> "none"], res |-> [ok |-> FALSE, why |-> "", events |-> <<>>]]
 
 Assets == {UA, UB, TA, TB}
